@@ -326,6 +326,31 @@ where
     }))
 }
 
+/// `AnyRef`: `any_ref()` (`BorrowInput::next_ref`)
+pub fn v_any_ref<'a, I, E>() -> P<'a, I, E>
+where
+    I: HInput<'a> + chumsky::input::BorrowInput<'a>,
+    E: HErr<'a, I>,
+{
+    bx(chumsky::primitive::any_ref::<I, Ex<E>>().map(|t: &'a I::Token| Val::tok(t.clone())))
+}
+
+/// `(SelectRef p f)`: `select_ref(..)`, what `select_ref!` expands to
+pub fn v_select_ref<'a, I, E>(p: Pred, f: Fn1) -> P<'a, I, E>
+where
+    I: HInput<'a> + chumsky::input::BorrowInput<'a>,
+    E: HErr<'a, I>,
+{
+    bx(chumsky::primitive::select_ref(move |t: &'a I::Token, _e: &mut MapExtra<'a, '_, I, Ex<E>>| {
+        let v = Val::tok(t.clone());
+        if holds(&p, &v) {
+            Some(ap1(&f, v))
+        } else {
+            None
+        }
+    }))
+}
+
 pub fn v_not<'a, I, E>(a: P<'a, I, E>) -> PU<'a, I, E>
 where
     I: HInput<'a> + ValueInput<'a>,
@@ -381,6 +406,8 @@ impl<'a, I: HInput<'a>, E: HErr<'a, I>> Builder<'a, I, E> {
             G::OneOf(ts) => I::one_of(ts)?,
             G::NoneOf(ts) => I::none_of(ts)?,
             G::Select(p, f) => I::select(p.clone(), f.clone())?,
+            G::AnyRef => I::any_ref()?,
+            G::SelectRef(p, f) => I::select_ref(p.clone(), f.clone())?,
             G::Custom(ts, k) => {
                 let (ts, k) = (I::Token::seq(ts), *k);
                 // no rewind on failure: the cursor stays where the mismatch was read.
